@@ -212,12 +212,16 @@ def statement_call_programs(rng, quick):
     lines = []
     recvs = [p for p in POOL if p not in NO_COLLECT]
     for meth in names:
-        for recv in (recvs if not quick else rng.sample(recvs, 6)):
+        # one receiver of every kind that has native methods, plus a few others: a native's own argument checks only run
+        # once its receiver is of the right kind
+        reps = [POOL[POOL_EXPRS.index(e)] for e in ("[1]", "{1: 2}", "\"a\"", "(1,)", "0..3", "fiber_new", "fiber_done", "it_fresh", "sit", "rit", "tit",
+                                                     "mapit", "inst", "String", "Fiber", "err_inst") if e in POOL_EXPRS]
+        for recv in (recvs if not quick else reps + rng.sample(recvs, 3)):
             for args in ([], [rng.choice(ARGS)], [rng.choice(ARGS), rng.choice(ARGS)], [rng.choice(ARGS)] * 3):
                 if meth in ("collect", "reduce", "map", "filter") and recv in NO_COLLECT:
                     continue
                 lines.append("try { %s.%s(%s); print(\"ran\"); } catch e { print(type(e)); print(e.context); }" % (recv, meth, ", ".join(args)))
-    lines = rng.shuffle(lines)[:4000 if quick else None]
+    lines = rng.shuffle(lines)[:6000 if quick else None]
     per = 250
     out = []
     for i in range(0, len(lines), per):
